@@ -256,7 +256,7 @@ func (r *Run) Violate(check string, c any, err error) {
 	}
 	r.mu.Lock()
 	defer r.mu.Unlock()
-	if len(r.res.Violations) >= 20 {
+	if len(r.res.Violations) >= 8 {
 		return
 	}
 	r.res.Violations = append(r.res.Violations, Violation{Check: check, Case: b, Error: err.Error()})
